@@ -52,13 +52,18 @@ def gen_unit(unit, canary=False, sub=None):
     return g, out
 
 
-def unit_obligations(g, failed_fns):
-    """(obligations, discharged, functions under contract) measured from the generated text"""
+def unit_obligations(g, failed_fns, pid=None, sites=None):
+    """(obligations, discharged, functions under contract) measured from the generated text; functions that an
+    `@props` directive or the property's `sites` list attributes to other properties only are not counted"""
     ob = 0
     dis = 0
     fns = []
     for fn in g.functions:
         if fn['kind'] != 'fn' or fn['assumed']:
+            continue
+        if pid and fn.get('props') and pid not in fn['props']:
+            continue
+        if sites is not None and fn['name'] not in sites:
             continue
         n = fn['n_clauses'] + 1   # +1: body safety (panics, overflow, callee preconditions, bounds)
         ob += n
@@ -161,7 +166,7 @@ def run_property(pid, tier, seed):
             n2 = sorted(o['name'] for o in r2.failed)
             if r2.tool_errors or n1 != n2:
                 inconclusive.append('unstable-proof unit=%s seed=%s: default seed failed=%s, this seed failed=%s tool=%s' % (unit, sd, n1, n2, r2.tool_errors[:1]))
-        ob, dis, fns = unit_obligations(g, failed_fns)
+        ob, dis, fns = unit_obligations(g, failed_fns, pid, spec.get('sites', {}).get(unit))
         if ob == 0:
             inconclusive.append('vacuity unit=%s generated zero obligations' % unit)
         if not r.tool_errors and not r.failed and r.verified == 0:
